@@ -45,6 +45,10 @@ type builder struct {
 	nodes  []*Node
 	nextID int
 
+	rootRel string   // the root directory, relative to the base ("root", "Sack", "App/desk")
+	look    []string // absolute look-alike directories OUTSIDE the root: same name up to letter case or a Unicode fold pair, a trailing character, a prefix/extension, the same for an ancestor
+	names   []string // extra component names for soups and detours
+
 	root     string // configured spelling (with $BASE)
 	cwdReal  string
 	realRoot string // "" when the root does not resolve
@@ -99,6 +103,54 @@ func relSpell(from, to string) []string {
 }
 
 var fileNames = []string{"a.lisp", "b.lisp", "c.lisp"}
+
+func swapCase(s string) string {
+	b := []byte(s)
+	for i, c := range b {
+		switch {
+		case c >= 'a' && c <= 'z':
+			b[i] = c - 32
+		case c >= 'A' && c <= 'Z':
+			b[i] = c + 32
+		}
+	}
+	return string(b)
+}
+
+// caseVariants are spellings that differ from name only by ASCII letter case.
+func caseVariants(name string) []string {
+	var out []string
+	seen := map[string]bool{name: true}
+	for _, v := range []string{strings.ToUpper(name), strings.ToLower(name), swapCase(name), swapCase(name[:1]) + name[1:],
+		name[:len(name)-1] + swapCase(name[len(name)-1:])} {
+		if !seen[v] {
+			seen[v] = true
+			out = append(out, v)
+		}
+	}
+	return out
+}
+
+// foldVariants replace a letter by its non-ASCII partner under Unicode simple
+// case folding (k/K <-> KELVIN SIGN, s/S <-> LATIN SMALL LETTER LONG S).
+func foldVariants(name string) []string {
+	var out []string
+	for i := 0; i < len(name); i++ {
+		switch name[i] {
+		case 'k', 'K':
+			out = append(out, name[:i]+"\u212a"+name[i+1:])
+		case 's', 'S':
+			out = append(out, name[:i]+"\u017f"+name[i+1:])
+		}
+	}
+	return out
+}
+
+// affixVariants differ by a trailing character or are a prefix / extension.
+func affixVariants(name string) []string {
+	return []string{name + "-evil", name + "_", name + "x", name + ".", name + "~", name[:len(name)-1], name + name}
+}
+
 var linkNames = []string{"lnk", "l2", "l3", "x.lisp", "up", "a.lisp", "b.lisp", "sub"}
 var soupPool = []string{".", "..", "..", "", "root", "outside", "root-evil", "cwd", "sub", "deep", "lib", "a.lisp", "b.lisp", "c.lisp",
 	"lnk", "l2", "l3", "x.lisp", "up", "rootlink", "nonexistent"}
@@ -162,7 +214,7 @@ func (b *builder) decorate(parts []string, relative bool) []string {
 					out = append(out, "") // doubled separator
 				}
 			default:
-				out = append(out, rapid.SampledFrom(detourPool).Draw(b.t, "detour"), "..")
+				out = append(out, rapid.SampledFrom(append(append([]string{}, detourPool...), b.names...)).Draw(b.t, "detour"), "..")
 			}
 		}
 		out = append(out, c)
@@ -171,6 +223,15 @@ func (b *builder) decorate(parts []string, relative bool) []string {
 		out = append(out, rapid.SampledFrom([]string{"", "."}).Draw(b.t, "trailkind"))
 	}
 	return out
+}
+
+func (b *builder) inLook(abs string) bool {
+	for _, l := range b.look {
+		if inside(l, abs) {
+			return true
+		}
+	}
+	return false
 }
 
 type fileSets struct {
@@ -192,7 +253,7 @@ func (b *builder) classify(minIdx int) fileSets {
 		switch {
 		case b.realRoot != "" && inside(b.realRoot, a):
 			fs.inside = append(fs.inside, n)
-		case strings.HasPrefix(a, genBase+"/root-evil/"):
+		case b.inLook(a):
 			fs.sibling = append(fs.sibling, n)
 		default:
 			fs.outside = append(fs.outside, n)
@@ -227,7 +288,7 @@ func (b *builder) genLoc(fromDir string, minIdx int, absPct int) string {
 		n := rapid.IntRange(1, 5).Draw(b.t, "soupn")
 		var parts []string
 		for i := 0; i < n; i++ {
-			parts = append(parts, rapid.SampledFrom(soupPool).Draw(b.t, "soup"))
+			parts = append(parts, rapid.SampledFrom(append(append([]string{}, soupPool...), b.names...)).Draw(b.t, "soup"))
 		}
 		s := strings.Join(parts, "/")
 		switch rapid.IntRange(0, 5).Draw(b.t, "soupabs") {
@@ -297,8 +358,70 @@ func (b *builder) realDirs() []string {
 	return out
 }
 
+// chooseNames picks the root directory's name, an optional intermediate
+// component above it, and the look-alike directories beside them.
+func (b *builder) chooseNames() {
+	b.rootRel = "root"
+	if b.mode == "mapfs" {
+		return
+	}
+	rn := rapid.SampledFrom([]string{"root", "root", "root", "Root", "Sack", "desk", "Kiosk", "ROOT"}).Draw(b.t, "rootname")
+	parent := ""
+	if b.pct("rootparent", 30) {
+		parent = rapid.SampledFrom([]string{"App", "srv", "Desk"}).Draw(b.t, "parentname")
+		b.mkdir(parent)
+		b.rootRel = parent + "/" + rn
+	} else {
+		b.rootRel = rn
+	}
+	b.names = append(b.names, rn)
+	mk := func(rel string) {
+		if _, dup := b.m.nodes[genBase+"/"+rel]; dup {
+			return
+		}
+		b.mkdir(rel)
+		b.look = append(b.look, genBase+"/"+rel)
+		b.names = append(b.names, lastOf("/"+rel))
+	}
+	pre := ""
+	if parent != "" {
+		pre = parent + "/"
+	}
+	// siblings of the root directory
+	if b.pct("sib-affix", 70) {
+		mk(pre + rn + "-evil")
+	}
+	if b.pct("sib-case", 60) {
+		mk(pre + rapid.SampledFrom(caseVariants(rn)).Draw(b.t, "casevariant"))
+	}
+	if fv := foldVariants(rn); len(fv) > 0 && b.pct("sib-fold", 50) {
+		mk(pre + rapid.SampledFrom(fv).Draw(b.t, "foldvariant"))
+	}
+	if b.pct("sib-any", 30) {
+		all := append(append(caseVariants(rn), foldVariants(rn)...), affixVariants(rn)...)
+		mk(pre + rapid.SampledFrom(all).Draw(b.t, "anyvariant"))
+	}
+	// the same for the intermediate component: <Parent'>/<rn>
+	if parent != "" {
+		all := append(append(caseVariants(parent), foldVariants(parent)...), affixVariants(parent)...)
+		n := rapid.IntRange(1, 2).Draw(b.t, "nparentvariants")
+		for i := 0; i < n; i++ {
+			pv := rapid.SampledFrom(all).Draw(b.t, "parentvariant")
+			if _, dup := b.m.nodes[genBase+"/"+pv]; dup {
+				continue
+			}
+			mk(pv)
+			if b.pct("pv-root", 80) {
+				b.mkdir(pv + "/" + rn)
+			}
+		}
+	}
+}
+
 func (b *builder) buildTree() {
-	for _, d := range []string{"root", "outside", "cwd"} {
+	b.chooseNames()
+	R := b.rootRel
+	for _, d := range []string{R, "outside", "cwd"} {
 		b.mkdir(d)
 	}
 	if b.mode == "mapfs" {
@@ -311,15 +434,16 @@ func (b *builder) buildTree() {
 			}
 		}
 	} else {
-		if b.pct("evil", 85) {
-			b.mkdir("root-evil")
-		}
 		type od struct {
 			p   string
 			pct int
 		}
-		for _, d := range []od{{"root/sub", 80}, {"root/sub/deep", 50}, {"root/lib", 50}, {"outside/sub", 50},
-			{"root-evil/sub", 40}, {"cwd/sub", 50}, {"cwd/root", 20}, {"outside/root", 15}} {
+		ods := []od{{R + "/sub", 80}, {R + "/sub/deep", 50}, {R + "/lib", 50}, {"outside/sub", 50},
+			{"cwd/sub", 50}, {"cwd/" + lastOf("/"+R), 20}, {"outside/" + lastOf("/"+R), 15}}
+		for _, l := range b.look {
+			ods = append(ods, od{l[len(genBase)+1:] + "/sub", 40})
+		}
+		for _, d := range ods {
 			if b.exists(dirText(d.p)) && b.pct("dir", d.pct) {
 				b.mkdir(d.p)
 			}
@@ -350,7 +474,7 @@ func (b *builder) buildLinks() {
 		if b.pct("linkinroot", 60) {
 			var in []string
 			for _, x := range dirs {
-				if inside(genBase+"/root", x) {
+				if inside(genBase+"/"+b.rootRel, x) {
 					in = append(in, x)
 				}
 			}
@@ -385,7 +509,7 @@ func (b *builder) buildLinks() {
 			nn := rapid.IntRange(1, 4).Draw(b.t, "soupn")
 			var parts []string
 			for j := 0; j < nn; j++ {
-				parts = append(parts, rapid.SampledFrom(soupPool).Draw(b.t, "soup"))
+				parts = append(parts, rapid.SampledFrom(append(append([]string{}, soupPool...), b.names...)).Draw(b.t, "soup"))
 			}
 			target = strings.Join(parts, "/")
 			if target == "" {
@@ -398,9 +522,10 @@ func (b *builder) buildLinks() {
 
 func (b *builder) chooseRootAndCwd() {
 	// cwd: a plain directory
-	cwds := []string{"cwd", "cwd", "root", "root", "outside"}
-	if b.exists("root/sub") {
-		cwds = append(cwds, "root/sub")
+	R := b.rootRel
+	cwds := []string{"cwd", "cwd", R, R, "outside"}
+	if b.exists(R + "/sub") {
+		cwds = append(cwds, R+"/sub")
 	}
 	cwd := rapid.SampledFrom(cwds).Draw(b.t, "cwd")
 	b.cwdReal = genBase + "/" + cwd
@@ -411,19 +536,20 @@ func (b *builder) chooseRootAndCwd() {
 		b.realRoot = genBase
 		return
 	}
-	spell := basePlaceholder + "/root"
+	BR := basePlaceholder + "/" + R
+	spell := BR
 	switch k := rapid.IntRange(0, 19).Draw(b.t, "rootkind"); {
 	case k < 9:
 	case k < 11:
-		spell = rapid.SampledFrom([]string{basePlaceholder + "/root/", basePlaceholder + "/root/.", basePlaceholder + "/outside/../root",
-			basePlaceholder + "//root"}).Draw(b.t, "rootspell")
+		spell = rapid.SampledFrom([]string{BR + "/", BR + "/.", basePlaceholder + "/outside/../" + R,
+			basePlaceholder + "//" + R}).Draw(b.t, "rootspell")
 	case k < 13:
-		spell = strings.Join(relSpell(b.cwdReal, genBase+"/root"), "/")
+		spell = strings.Join(relSpell(b.cwdReal, genBase+"/"+R), "/")
 	case k < 18:
 		// the root is itself a symbolic link
-		tgts := []string{"root", basePlaceholder + "/root", "./root"}
-		if b.exists("root/sub") {
-			tgts = append(tgts, "root/sub")
+		tgts := []string{R, BR, "./" + R}
+		if b.exists(R + "/sub") {
+			tgts = append(tgts, R+"/sub")
 		}
 		tgts = append(tgts, "outside")
 		tgt := rapid.SampledFrom(tgts).Draw(b.t, "rootlinktarget")
@@ -434,8 +560,8 @@ func (b *builder) chooseRootAndCwd() {
 			spell = basePlaceholder + "/rootlink2"
 		}
 	case k < 19:
-		if b.exists("root/sub") {
-			spell = basePlaceholder + "/root/sub"
+		if b.exists(R + "/sub") {
+			spell = BR + "/sub"
 		}
 	default:
 		spell = basePlaceholder + "/no-such-root"
